@@ -2,11 +2,11 @@ package main
 
 import (
 	"fmt"
-	"os"
 	"go/ast"
 	"go/constant"
 	"go/token"
 	"go/types"
+	"os"
 	"strings"
 
 	"golang.org/x/tools/go/ssa"
@@ -14,24 +14,24 @@ import (
 
 // Frame is the activation of one function being translated (top level or inlined).
 type Frame struct {
-	un       *Unit
-	fn       *ssa.Function
-	vals     map[ssa.Value]Val
-	parent   *Frame
-	depth    int
-	pure     bool // spec-level evaluation of a closure: no obligations
-	contract *Contract
-	entry    State
-	defers   []deferred
-	rets     []retInfo
-	loops    map[*ssa.BasicBlock]*loopInfo
+	un        *Unit
+	fn        *ssa.Function
+	vals      map[ssa.Value]Val
+	parent    *Frame
+	depth     int
+	pure      bool // spec-level evaluation of a closure: no obligations
+	contract  *Contract
+	entry     State
+	defers    []deferred
+	rets      []retInfo
+	loops     map[*ssa.BasicBlock]*loopInfo
 	clausePkg string // package of the contract clause being evaluated
 	dupQuant  int    // >0: assumed quantified facts are emitted in both index forms
 	noShift   bool
-	ranges   map[ssa.Value]string // Range instr -> seen-set state key
-	paramEnv map[string]Val
-	curBlock *ssa.BasicBlock
-	pkgPath  string // for contract evaluation without a function
+	ranges    map[ssa.Value]string // Range instr -> seen-set state key
+	paramEnv  map[string]Val
+	curBlock  *ssa.BasicBlock
+	pkgPath   string // for contract evaluation without a function
 }
 
 type deferred struct {
